@@ -22,6 +22,43 @@ def sign_ok(units, sgn):
     return And([Or(u == 0, And(u > 0, sgn > 0), And(u < 0, sgn < 0)) for u in units])
 
 
+def date_parts(a, o):
+    da, db = (a[0], a[1], a[2]), (a[3], a[4], a[5])
+    L = a[6]
+    r = o.some.some
+    yrs, mos, wks, dys = r[0].ints()
+    sgn = If(date_lt(da, db), 1, If(date_lt(db, da), -1, 0))
+    return da, db, L, r, (yrs, mos, wks, dys), sgn
+
+
+def date_claims():
+    def back(a, o):
+        da, db, L, r, u, sgn = date_parts(a, o)
+        return And(o.is_some, o.some.is_some, r[2].is_some, eq3(r[2].some.ints(), db))
+
+    def signs(a, o):
+        da, db, L, r, u, sgn = date_parts(a, o)
+        return And(sign_ok(list(u), sgn), And([t == 0 for t in r[1].ints()]))
+
+    def shape(a, o):
+        da, db, L, r, (yrs, mos, wks, dys), sgn = date_parts(a, o)
+        return And(Implies(L < 9, yrs == 0), Implies(L < 8, mos == 0), Implies(L != 7, wks == 0),
+                   Implies(L == 9, absz(mos) < 12), Implies(L >= 8, absz(dys) < 31), Implies(L == 7, absz(dys) < 7))
+
+    def neg(a, o):
+        da, db, L, r, u, sgn = date_parts(a, o)
+        return And(r[3].is_some, And([x == -y for x, y in zip(r[3].some.ints(), u)]))
+
+    def dur(a, o):
+        da, db, L, r, u, sgn = date_parts(a, o)
+        return r[4][0].i * NS + r[4][1].i == (ref_epoch_day(*db) - ref_epoch_day(*da)) * 86400 * NS
+    return [("Date::until: a + a.until(b) == b (reversible)", back),
+            ("Date::until: all non-zero units share the sign of b - a; no time units", signs),
+            ("Date::until: nothing above the largest unit; balanced (months < 12, days < 31, days < 7 with weeks)", shape),
+            ("Date::since == -Date::until", neg),
+            ("Date::duration_until == exact day distance", dur)]
+
+
 def date_until_claim(a, o):
     da, db = (a[0], a[1], a[2]), (a[3], a[4], a[5])
     L = a[6]
@@ -69,15 +106,19 @@ def time_until_claim(a, o):
 
 def ts_until_claim(a, o):
     T1, T2, L = a[0] * NS + a[1], a[2] * NS + a[3], a[4]
-    r = o.some.some
-    u = r[1].ints()
     diff = T2 - T1
     sgn = If(diff > 0, 1, If(diff < 0, -1, 0))
-    return And(o.is_some, o.some.is_some, And([c == 0 for c in r[0].ints()]),
-               span_time_total(u) == diff, sign_ok(u, sgn), time_balance(u, L),
-               r[2].is_some, r[2].some[0].i * NS + r[2].some[1].i == T2,
-               r[3].is_some, And([x == -y for x, y in zip(r[3].some.ints(), u)]),
-               r[4][0].i * NS + r[4][1].i == diff)
+    # the only way to fail: the distance does not fit the nanosecond unit limit when nanoseconds are the largest unit
+    fits = Or(L != 0, absz(diff) <= LIM["nanoseconds"])
+
+    def payload(r):
+        u = r[1].ints()
+        return And(And([c == 0 for c in r[0].ints()]),
+                   span_time_total(u) == diff, sign_ok(u, sgn), time_balance(u, L),
+                   r[2].is_some, r[2].some[0].i * NS + r[2].some[1].i == T2,
+                   r[3].is_some, And([x == -y for x, y in zip(r[3].some.ints(), u)]),
+                   r[4][0].i * NS + r[4][1].i == diff)
+    return And(o.is_some, opt_is(o.some, fits, payload))
 
 
 def ts_ok(s, ns):
@@ -91,14 +132,17 @@ KERNELS = [
     K("c07::k_time_until", pre=lambda a: And(ref_valid_time(*a[0:4]), ref_valid_time(*a[4:8]), in_range(a[8], 0, 5)),
       claims=[("Time::until(largest in ns..h): exact nanosecond distance, balanced, sign-consistent; a + s == b; since == -until; duration_until exact", time_until_claim)],
       bounds={**B_T2, 8: (0, 5)}, split=(8, 6), timeout=240),
-    K("c07::k_ts_until", pre=lambda a: And(ts_ok(a[0], a[1]), ts_ok(a[2], a[3]), in_range(a[4], 0, 5)),
-      claims=[("Timestamp::until(largest in ns..h): exact nanosecond distance, balanced, sign-consistent; a + s == b; since == -until; duration_until exact", ts_until_claim)],
-      bounds={0: (TS_MIN_S, TS_MAX_S), 1: (-999999999, 999999999), 2: (TS_MIN_S, TS_MAX_S), 3: (-999999999, 999999999), 4: (0, 5)}, split=(4, 6), timeout=240),
+    K("c07::k_ts_until", pre=lambda a: And(ts_ok(a[0], a[1]), ts_ok(a[2], a[3]), in_range(a[4], 0, 3)),
+      claims=[("Timestamp::until(largest in ns..s): exact nanosecond distance, balanced, sign-consistent; a + s == b; since == -until; duration_until exact; Err only when the distance exceeds the nanosecond unit limit", ts_until_claim)],
+      bounds={0: (TS_MIN_S, TS_MAX_S), 1: (-999999999, 999999999), 2: (TS_MIN_S, TS_MAX_S), 3: (-999999999, 999999999), 4: (0, 3)}, split=(4, 4), timeout=400),
+    K("c07::k_ts_until", pre=lambda a: And(ts_ok(a[0], a[1]), ts_ok(a[2], a[3]), in_range(a[4], 4, 5)),
+      claims=[("Timestamp::until(largest = minute / hour)", ts_until_claim)],
+      bounds={0: (TS_MIN_S, TS_MAX_S), 1: (-999999999, 999999999), 2: (TS_MIN_S, TS_MAX_S), 3: (-999999999, 999999999), 4: (4, 5)}, split=(0, 32), timeout=1200, tier="thorough"),
     K("c07::k_date_until", pre=lambda a: And(ref_valid_date(a[0], a[1], a[2]), ref_valid_date(a[3], a[4], a[5]), in_range(a[6], 6, 9),
-                                           in_range(a[0], 2096, 2104), in_range(a[3], 2090, 2110)),
-      claims=[("Date::until(largest in day..year), years 2090..2110: a + s == b, sign-consistent, nothing above the largest unit, balanced, since == -until, duration exact", date_until_claim)],
-      bounds={**B_D2, 0: (2096, 2104), 3: (2090, 2110), 6: (6, 9)}, split=(6, 4), timeout=300),
+                                           in_range(a[0], 2099, 2101), in_range(a[3], 2098, 2102), a[6] != 7),
+      claims=[(lab + " [years 2098..2102; largest in day, month, year — week is thorough-only]", f) for lab, f in date_claims()],
+      bounds={**B_D2, 0: (2099, 2101), 3: (2098, 2102), 6: (6, 9)}, split=(6, 4), timeout=400),
     K("c07::k_date_until", pre=lambda a: And(ref_valid_date(a[0], a[1], a[2]), ref_valid_date(a[3], a[4], a[5]), in_range(a[6], 6, 9)),
-      claims=[("Date::until(largest in day..year), all dates: a + s == b, sign-consistent, nothing above the largest unit, balanced, since == -until, duration exact", date_until_claim)],
+      claims=date_claims(),
       bounds={**B_D2, 6: (6, 9)}, split=(0, 64), timeout=900, tier="thorough"),
 ]
